@@ -489,13 +489,24 @@ class Interp:
         elif isinstance(t, ast.Subscript):
             o = self.ev(t.value, env)
             if isinstance(t.slice, ast.Slice):
-                raise LexUnknown("slice assignment")
-            k = self.ev(t.slice, env)
+                if not isinstance(o, list):
+                    raise LexUnknown("slice assignment on a non-list")
+                lo = self.ev(t.slice.lower, env) if t.slice.lower is not None else None
+                up = self.ev(t.slice.upper, env) if t.slice.upper is not None else None
+                stp = self.ev(t.slice.step, env) if t.slice.step is not None else None
+                k = slice(uniform(lo, "a slice bound"), uniform(up, "a slice bound"), uniform(stp, "a slice step"))
+            else:
+                k = self.ev(t.slice, env)
             if isinstance(o, YP):
                 o.setitem(uniform(k, "a production index"), v)
             elif isinstance(o, dict):
                 hit = dict_find(o, k)
                 o[k if hit is _MISSING else hit] = v
+            elif isinstance(o, list) and isinstance(t.slice, ast.Slice):
+                try:
+                    o[k] = self.iterate(v)
+                except (IndexError, TypeError, ValueError) as e:
+                    raise PyRaise(e)
             elif isinstance(o, list):
                 k = uniform(k, "a list index")
                 try:
@@ -1248,6 +1259,11 @@ class Interp:
         if name in ("os.path.splitext", "os.path.basename", "os.path.dirname", "posixpath.splitext"):
             import os.path as _osp
             return lift(getattr(_osp, name.split(".")[-1]), *args)
+        if name == "re.compile":
+            try:
+                return ("regex", re.compile(*[uniform(a, "a regex") for a in args], **kwargs))
+            except (TypeError, re.error) as ex:
+                raise PyRaise(ex if isinstance(ex, TypeError) else TypeError(str(ex)))
         if name in ("re.match", "re.search", "re.fullmatch", "re.sub", "re.split", "re.findall"):
             fn = getattr(re, name.split(".")[1])
             try:
